@@ -1003,7 +1003,7 @@ Proof.
 Qed.
 
 (* the guard [spares] holds for the all-in-one output whenever Clean's own-file test can
-   succeed: Dir is "." or the comparison is on base names (the repair of K_clean_own_output) *)
+   succeed: Dir is "." or the comparison is on base names (the current code, c_fixed) *)
 Lemma own_spares c o : (c_dirdot c || c_fixed c) = true -> o_name o = c_genfile c -> spares c o = true.
 Proof.
   intros H E. unfold spares, is_own. rewrite H, E, String.eqb_refl. cbn. now rewrite !orb_true_r.
@@ -1339,4 +1339,49 @@ Proof.
   - exact (exec_dir_wf p init H).
   - exact (exec_keys p init K).
   - reflexivity.
+Qed.
+
+(* ------------------------------------------------ the current code meets [spares] *)
+(* main writes exactly srcMap; when Clean is active (not Separate) srcMap has the single
+   key fileName of the empty type name = genfile.  With the base-name comparison of the
+   current code Clean skips it for every Dir. *)
+Definition aio_shape (c : cfg) (outs : list output) : Prop :=
+  c_clean c = true -> forall o, In o outs -> o_name o = c_genfile c.
+
+Lemma current_code_spares c outs : c_fixed c = true -> aio_shape c outs ->
+  forall o, In o outs -> spares c o = true.
+Proof.
+  intros F A o Ho. destruct (c_clean c) eqn:E.
+  - apply own_spares; [rewrite F; apply orb_true_r|]. unfold aio_shape in A. rewrite E in A. exact (A eq_refl o Ho).
+  - unfold spares. now rewrite E.
+Qed.
+
+Theorem current_code_good c init outs :
+  c_fixed c = true -> aio_shape c outs -> nofds init -> dir_wf init -> okouts init outs -> good c init outs.
+Proof. intros F A H1 H2 H3. split; auto. now apply current_code_spares. Qed.
+
+(* ------------------------------------- a file is removed only once it is superseded *)
+(* if, at any crash point, some file selected by Clean is already gone, then every output
+   of the run already shows its complete new content *)
+Theorem removed_only_when_superseded c init outs p n o :
+  good c init outs -> prefix_of p (plan c init outs) ->
+  In n (victims c (exec init (write_ops (c_fd c) outs))) -> lookup n (dir (exec init p)) = None ->
+  In o outs -> visible (exec init p) (o_name o) = Some (new_bytes o).
+Proof.
+  intros G Hp Hv Hgone Ho.
+  pose proof (proj1 (victims_spec _ _ _) Hv) as (_ & _ & Hb & _).
+  destruct (s1_facts c init outs G) as (F1 & F2 & F3 & F4 & F5 & F6 & F7 & F8).
+  assert (Hnn : ~ In n (names outs)).
+  { intros Hx. apply in_map_iff in Hx as (o' & <- & Ho'). now apply (output_not_victim c init outs G o' Ho'). }
+  assert (Hnt : ~ In n (temps outs)) by (intros Hx; now apply (temp_not_victim c init outs G n Hx)).
+  destruct (plan_prefix c init outs p Hp) as [Hw|(q & -> & Hq)].
+  - (* still in the write loop: the victim is untouched, hence not gone *)
+    exfalso. pose proof G as [H1 H2 H3 _].
+    destruct (write_prefix_state (c_fd c) outs init p H1 H2 H3 Hw) as (_ & B & _).
+    rewrite (B n Hnn Hnt) in Hgone. rewrite (F3 n Hnn Hnt) in Hb. contradiction.
+  - rewrite exec_app.
+    destruct (clean_prefix_facts c init outs q Hq) as [Hru Hunt].
+    destruct (exec_ru q _ Hru) as (Ed & _ & _ & _).
+    destruct (F1 o Ho) as (i & L & _ & D).
+    unfold visible. rewrite (Hunt _ (output_not_victim c init outs G o Ho)), L, Ed, D. reflexivity.
 Qed.
